@@ -21,6 +21,20 @@ theorem tie_wiring : Gen.Wiring.allFound = true ∧ Gen.Wiring.stakingEndBlockDe
 /-- every entry of a view is the first (hence the only relevant) one for its key -/
 def Functional (w : View) : Prop := ∀ e ∈ w, lookup w e.1 = e.2
 
+/-- every wrapper module hands every ABCI hook on to the module it wraps, with the hook's own arguments (the staking wrapper's
+    `ExportGenesis` calls the SDK's export on the embedded keeper instead), and every module with a begin- or end-blocker of its own
+    calls it first thing: nothing that the wrapped SDK modules do at block boundaries or at genesis is skipped -/
+theorem tie_wrappers :
+    Gen.Wiring.wrapperHandsOn =
+      ["auth.InitGenesis", "auth.ExportGenesis", "auth.BeginBlock", "auth.EndBlock",
+       "bank.InitGenesis", "bank.ExportGenesis", "bank.BeginBlock", "bank.EndBlock",
+       "distribution.InitGenesis", "distribution.ExportGenesis", "distribution.BeginBlock", "distribution.EndBlock",
+       "slashing.InitGenesis", "slashing.ExportGenesis", "slashing.BeginBlock", "slashing.EndBlock",
+       "staking.InitGenesis", "staking.BeginBlock", "staking.EndBlock"] ∧
+    Gen.Wiring.ownBlockers =
+      ["mint.BeginBlock", "gov.EndBlock", "shield.EndBlock", "oracle.EndBlock", "oracle.BeginBlock", "cvm.BeginBlock", "cvm.EndBlock",
+       "shield.BeginBlock", "crisis.EndBlock"] := by decide
+
 theorem lookup_none (w : View) (pk : String) (h : ∀ e ∈ w, ¬ e.1 = pk) : lookup w pk = 0 := by
   induction w with
   | nil => rfl
